@@ -287,6 +287,25 @@ CLAIMED = {
              "exhaustive.",
         technique="Lean proof (API automaton + trace acceptor over Env) + T-trace of concurrent workloads + independent read-committed reader",
     ),
+    "C10": dict(
+        text="Machine-checked proof that the models of all eight record-decoder entry points (compiled and pure-Python "
+             "DefaultRecordBatch, LegacyRecordBatch, MemoryRecords, varint) never read outside the supplied buffer, "
+             "terminate, and end only in records or an ordinary exception, for every byte string and every codec "
+             "behaviour; validate_crc() is proved to equal the true CRC-32C/CRC-32 comparison in all four batch classes. "
+             "The models follow the Cython sources access by access (every read through a bounds-faulting rd, "
+             "Py_ssize_t overflow, negative-size allocation, fuelled loops). Each of the seven defects repaired for "
+             "this property carries a kernel-checked witness on the unrepaired model. On every run the models are "
+             "compared with the real decoders, rebuilt from the .pyx (plain, AddressSanitizer, guard page) and pure "
+             "Python, on ~18k (quick) / ~270k (thorough) hostile byte strings: outcome class, checksum result and "
+             "every decoded record.",
+        design="0.3/C10",
+        note="trusted: hand transcription of the decoders (tied only as far as generated inputs reach); C modelled as "
+             "reads + index arithmetic + PyBytes_FromStringAndSize, int64 offset arithmetic assumed to wrap; CPython "
+             "slicing/struct/utf-8 semantics as transcribed; codecs are an oracle (real calls recorded and handed to "
+             "the model); buffers < 2^62 bytes; ASan cannot see the NUL behind a bytes object (a 1-byte over-read "
+             "inside a decompressed payload is covered by proof only); harness and driver.",
+        technique="Lean 4 proof over access-level decoder models + T-diff under ASan / guard page / kill timer",
+    ),
 }
 
 NOT_YET = {}
